@@ -432,6 +432,15 @@ class Sccp:
             return None
         if p == "deref":
             return v
+        if v[0] == "c":
+            # a captured variable of a closure value, by name (or the only one)
+            if isinstance(p, tuple) and p[0] == "f":
+                names = v[3] if len(v) > 3 else ()
+                if p[1] in names and names.index(p[1]) < len(v[2]):
+                    return v[2][names.index(p[1])]
+                if len(v[2]) == 1:
+                    return v[2][0]
+            return None
         if isinstance(p, tuple) and p[0] == "dc":
             if v[0] == "v" and v[1] == p[1]:
                 return v
@@ -568,7 +577,7 @@ class Sccp:
             return V(rv["variant"], payload)
         if k == "agg" and "closure" in rv:
             # a closure value: which closure, and what it captured (by value or through a shared reference)
-            return ("c", rv["closure"], tuple(self._operand(env, o) for o in rv["ops"]))
+            return ("c", rv["closure"], tuple(self._operand(env, o) for o in rv["ops"]), tuple(rv.get("captures") or ()))
         if k == "agg" and rv.get("tuple") and len(rv["ops"]) >= 2:
             # (a, b, …) as scrutinee of a match: tracked per component
             vals = tuple(self._operand(env, o) for o in rv["ops"])
@@ -839,7 +848,7 @@ def combinator_model(facts, inner=None, depth=0, field_model=None, callees=None)
     def closure_of(call, i, argv=None):
         # (closure fn, captured values)
         if argv is not None and i < len(argv) and argv[i] is not None and argv[i][0] == "c" and argv[i][1] in facts.fns:
-            return facts.fns[argv[i][1]], argv[i][2]
+            return facts.fns[argv[i][1]], argv[i]
         try:
             e = ExprBuilder(call.fn).operand(call.args[i])
         except Exception:
@@ -854,7 +863,10 @@ def combinator_model(facts, inner=None, depth=0, field_model=None, callees=None)
         if g is None or depth > 3:
             return None
         env = {}
-        if caps:
+        if caps and caps[0] == "c":
+            # the environment is the closure value itself (captures addressed by name)
+            Sccp._write(env, (1, ()), caps)
+        elif caps:
             Sccp._write(env, (1, ()), ("t", tuple(caps)))
         for i, v in enumerate(params):
             if v is not None:
